@@ -173,7 +173,7 @@ std::vector<ComplexType> TwoParticleGF::compute(bool clear, std::vector<boost::t
         comm.barrier();
 
         std::vector<ComplexType> m_data2(m_data.size(), 0.0);
-        boost::mpi::reduce(comm, &m_data[0], m_data.size(), &m_data2[0], std::plus<ComplexType>(), 0);
+        boost::mpi::reduce(comm, m_data.data(), m_data.size(), m_data2.data(), std::plus<ComplexType>(), 0);
         std::swap(m_data, m_data2);
         if (!clear) {
             for (size_t p = 0; p<parts.size(); p++) {
